@@ -226,4 +226,23 @@ def Pack.gexRequestOld (roll : Nat → Nat) (p : Pack) (b : Int) : Except Err Gr
   let t := gexTripleOld b
   p.getModulus roll t.1 t.2.1 t.2.2
 
+/-! ## several requests on one `ModulusPack` object
+
+`get_modulus` reads `self.pack` and writes nothing: the object after the call is the object before it.  A request is
+`(min, prefer, max, k)` with `_roll_random(n) = k % n` for that call. -/
+
+abbrev Request := Int × Int × Int × Nat
+
+/-- one call on the object: (object afterwards, answer) -/
+def Pack.getStep (p : Pack) (r : Request) : Pack × Except Err Group :=
+  (p, p.getModulus (fun n => r.2.2.2 % n) r.1 r.2.1 r.2.2.1)
+
+/-- a history of calls on the same object -/
+def Pack.getSession : Pack → List Request → Pack × List (Except Err Group)
+  | p, [] => (p, [])
+  | p, r :: rs =>
+    let s := p.getStep r
+    let rest := Pack.getSession s.1 rs
+    (rest.1, s.2 :: rest.2)
+
 end PV.Primes
